@@ -100,6 +100,7 @@ var checks = map[string][]HarnessSpec{
 		{Name: "verifC14LongNames", Pkg: ".", Labels: []string{"long-refused", "long-ok"}, Quick: TierOpts{LoopLimit: 600}, Thorough: TierOpts{LoopLimit: 600}},
 		{Name: "verifC14Loops", Pkg: ".", Labels: []string{"loops"}},
 		{Name: "verifC14BadForms", Pkg: ".", Labels: []string{"bad-refused", "good-form"}},
+		{Name: "verifC14HostileTargets", Pkg: ".", Labels: []string{"hostile-refused", "hostile-ignored"}, Quick: TierOpts{LoopLimit: 700}, Thorough: TierOpts{LoopLimit: 700}},
 		{Name: "verifC14Zone", Pkg: ".", Labels: []string{"resolved", "error"}},
 		{Name: "verifC14Chain", Pkg: ".", Labels: []string{"chain"}},
 	},
